@@ -65,9 +65,11 @@ def run(ctx, monitors=MONITORS):
     #          state cover (COV) and the path to the first call of every class of monitor failure (CEX)
     #  *_mut : the bolt kinds with Put/Del while a cursor (read transaction) is open
     #  ring2 : the ring with capacity 2
-    # Act_ModuloNamed (in every config) says: outside the NAMED deviations (F7 trimmed Seek of an absent
-    # round, F15 ring Next after the slice moved) the transcribed code satisfies every monitor.  The CEX
-    # classes are model counterexamples: they become verdicts only through the replay below.
+    # Act_ModuloNamed (in every config) says: outside the NAMED deviations the transcribed code satisfies
+    # every monitor.  No deviation is named any more (F7 and F15 were repaired in the code and the
+    # transcription follows the repaired code), so this is the strict statement.  Should the model break
+    # a monitor, Act_Classify prints one path per class (CEX): a model counterexample, which becomes a
+    # verdict only through the replay below.
     ncex, ncov, cov, classes = 0, 0, [], set()
     for c in (["all", "mut"] if q else ["all_big", "mut_big", "ring2"]):
         first = c.startswith("all")
